@@ -18,7 +18,7 @@ from ..fxsym import interp as ix
 from ..fxsym.capture import capture
 from ..fxsym.programs import build, qprograms, root_specs, spec_name
 from ..par import run_tasks
-from ..report import CONCRETE, INCONCLUSIVE, Report, describe_function
+from ..report import CONCRETE, INCONCLUSIVE, Report, describe_function, lazy
 from ..sym.runner import discharge
 from ..sym.scalar import Ctx
 from ..sym.tensor import LC, ONE, HarnessError, Mode, Node, Session, STensor, Term, opaque
@@ -200,6 +200,45 @@ def replay_ste(obname: str, model: Dict[str, Any], info: Any) -> Tuple[bool, str
 def task_ste(which: str, fkey: str, rank: int) -> List[Dict[str, Any]]:
     torch.set_num_threads(1)
     return discharge("C15", f"{which}[{fkey},rank={rank}]", h_ste(which, fkey, rank), replay_ste, 20, base_info={"which": which, "format": fkey, "rank": rank})
+
+
+def arguments_untouched(fkey: str) -> Tuple[bool, str]:
+    """'nothing else changed': quantise / quantise_fwd / quantise_bwd never write into a tensor they are given - not a plain data tensor
+    (no gradient, contiguous float32, values beyond the format's range) that has other consumers, and not the gradient buffer handed to backward"""
+    label = FORMATS[fkey][0]
+    fmt = mkfmt((label[0], label[1], "nearest", 0))
+    bad = []
+    torch.manual_seed(5)
+    for which in ("quantise", "quantise_fwd", "quantise_bwd"):
+        for contiguous in (True, False):
+            x = _spread(torch.randn(4, 8))
+            if not contiguous:
+                x = _spread(torch.randn(8, 4)).t()
+            x0 = x.clone()
+            y = getattr(fmt, which)(x)
+            if not torch.equal(torch.nan_to_num(x, nan=7.25), torch.nan_to_num(x0, nan=7.25)):
+                bad.append(f"{which} overwrote its {'contiguous' if contiguous else 'transposed'} plain argument")
+            if y.data_ptr() == x.data_ptr() and which != "quantise_bwd" and not torch.equal(torch.nan_to_num(fmt.quantise(x0), nan=7.25), torch.nan_to_num(x0, nan=7.25)):
+                bad.append(f"{which} returned its argument's own storage although values changed")
+    xg = torch.randn(4, 8, requires_grad=True)
+    g = _spread(torch.randn(4, 8))
+    g0 = g.clone()
+    fmt.quantise_bwd(xg).backward(g)
+    if not torch.equal(g, g0):
+        bad.append("quantise_bwd's backward overwrote the upstream gradient buffer (other consumers of that gradient would see it quantised)")
+    return bool(bad), f"{fmt}: " + "; ".join(bad or ["arguments and gradient buffers untouched"])
+
+
+def task_arguments_untouched(fkey: str) -> List[Dict[str, Any]]:
+    torch.set_num_threads(1)
+    name = f"arguments untouched[{fkey}]"
+    try:
+        b, desc = arguments_untouched(fkey)
+    except Exception as e:
+        return [{"type": "obligation", "name": name, "status": INCONCLUSIVE, "queries": 0, "detail": f"{type(e).__name__}: {str(e)[:300]}"}]
+    if b:
+        return [{"type": "violation", "key": f"C15/{name}", "what": desc, "replay": {"kind": "untouched", "format": fkey}}]
+    return [{"type": "obligation", "name": name, "status": CONCRETE, "queries": 0, "kind": "concrete", "detail": desc}]
 
 
 # ---------------------------------------------------------------------------------------------- (c) whole graphs
@@ -589,6 +628,7 @@ def run(rep: Report, only: str = "") -> None:
             for rank in ((0, 1, 2, 3) if thorough else (1, 3)):
                 tasks.append((task_ste, (which, fkey, rank)))
     tasks += [(task_ste_sequence, ("quantise_fwd",)), (task_ste_sequence, ("quantise_bwd",))]
+    tasks += [(task_arguments_untouched, (fk,)) for fk in FORMATS]
     # lossless format: bit-vector proof over every float32 (engine B) for nearest and for the stochastic default
     for claim in ("fixed", "no_error", "shape_dtype", "unmodified"):
         tasks.append((bits_task, (8, 23, "nearest", 0, claim, 300)))
@@ -607,9 +647,9 @@ def run(rep: Report, only: str = "") -> None:
     if only:
         tasks = [t for t in tasks if only in repr(t[1]) or (t[0] is task_program and only in spec_name(t[1][0]))]
     rep.extend(run_tasks(tasks))
-    rep.functions = [describe_function(f) for f in (fm.FPFormat.quantise_fwd, fm.FPFormat.quantise_bwd, fm.FPFormat.quantise, fm.format_to_tuple, fm.tuple_to_format,
-                                                    sf._replace_with_quantised, sf._quantisation_backend, sf._quantised_linear, sf._quantised_u_linear,
-                                                    sf._quantised_scaled_dot_product_attention, sf._quantised_u_scaled_dot_product_attention, sf.simulate_format, sf.simulate_fp8)]
+    rep.functions = [describe_function(f) for f in (lazy(lambda: fm.FPFormat.quantise_fwd), lazy(lambda: fm.FPFormat.quantise_bwd), lazy(lambda: fm.FPFormat.quantise), lazy(lambda: fm.format_to_tuple), lazy(lambda: fm.tuple_to_format),
+                                                    lazy(lambda: sf._replace_with_quantised), lazy(lambda: sf._quantisation_backend), lazy(lambda: sf._quantised_linear), lazy(lambda: sf._quantised_u_linear),
+                                                    lazy(lambda: sf._quantised_scaled_dot_product_attention), lazy(lambda: sf._quantised_u_scaled_dot_product_attention), lazy(lambda: sf.simulate_format), lazy(lambda: sf.simulate_fp8))]
     rep.bounds = {"programs": f"{len(specs)} programs over linear (bias / no bias / bias by keyword), unit-scaled linear (constraint positional, keyword, None), attention (plain, causal, "
                               "dropout_p=0 + scale, mask by keyword, mask positional), unit-scaled attention, with elementwise / norm / add / reshape fillers, residual blocks, heads; "
                               "enumerated, depth <= 3 (quick)", "format pairs": list(FORMATS),
@@ -622,6 +662,8 @@ def run(rep: Report, only: str = "") -> None:
 
 
 def replay(data: Dict[str, Any]) -> Tuple[bool, str]:
+    if data.get("kind") == "untouched":
+        return arguments_untouched(data["format"])
     if data.get("kind") == "fp8":
         r = task_fp8_instance()
         v = [x for x in r if x.get("type") == "violation"]
